@@ -42,6 +42,9 @@ impl CheckCb {
     { }
 }
 
+/// R8: a user predicate by identity
+pub struct PredId { pub id: u64 }
+
 /// cache names registered under key k of a tag / event / dependency table
 pub open spec fn under(t: Map<String, HashSet<String>>, k: String) -> Set<String> {
     if t.contains_key(k) { t[k]@ } else { Set::empty() }
@@ -62,7 +65,7 @@ pub fn set_or_empty(m: &HashMap<String, HashSet<String>>, key: &str) -> (r: Hash
 /// R4: `for name in set` -> the elements the iterator yields: each element exactly once (iterator = the sequence it yields)
 #[verifier::external_body]
 pub fn set_elems<'a>(s: &'a HashSet<String>) -> (r: Vec<&'a String>)
-    ensures r@.len() == s@.len(), forall|i: int, j: int| 0 <= i < j < r@.len() ==> *r@[i] != *r@[j],
+    ensures r@.len() == s@.len(), r@.len() <= usize::MAX, forall|i: int, j: int| 0 <= i < j < r@.len() ==> *r@[i] != *r@[j],
         forall|k: String| s@.contains(k) <==> exists|j: int| 0 <= j < r@.len() && *(#[trigger] r@[j]) == k,
 { unimplemented!() }
 
@@ -71,13 +74,15 @@ pub fn set_elems<'a>(s: &'a HashSet<String>) -> (r: Vec<&'a String>)
 pub fn map_pairs<'a>(m: &'a HashMap<String, CheckCb>) -> (r: Vec<(&'a String, &'a CheckCb)>)
     ensures r@.len() == m@.len(), forall|i: int, j: int| 0 <= i < j < r@.len() ==> *r@[i].0 != *r@[j].0,
         forall|j: int| 0 <= j < r@.len() ==> m@.contains_key(*(#[trigger] r@[j]).0) && m@[*r@[j].0] == *r@[j].1,
+        r@.len() <= usize::MAX,
         forall|k: String| m@.contains_key(k) ==> exists|j: int| 0 <= j < r@.len() && *(#[trigger] r@[j]).0 == k,
 { unimplemented!() }
 
 /// the registered names among `names`
 pub open spec fn matching(names: Set<String>, cbs: Map<String, ClearCb>) -> Set<String> { names.filter(|n: String| cbs.contains_key(n)) }
-pub open spec fn ids_of(names: Set<String>, cbs: Map<String, ClearCb>) -> Set<u64> {
-    Set::new(|id: u64| exists|n: String| names.contains(n) && cbs.contains_key(n) && #[trigger] cbs[n].id == id)
+/// id is the id of the callback registered for one of `names`
+pub open spec fn id_among(id: u64, names: Set<String>, cbs: Map<String, ClearCb>) -> bool {
+    exists|n: String| names.contains(n) && cbs.contains_key(n) && #[trigger] cbs[n].id == id
 }
 
 /// how many of the first i yielded names are registered
@@ -86,67 +91,79 @@ pub open spec fn hits(es: Seq<&String>, cbs: Map<String, ClearCb>, i: int) -> na
 {
     if i <= 0 { 0 } else { hits(es, cbs, i - 1) + (if cbs.contains_key(*es[i - 1]) { 1nat } else { 0nat }) }
 }
-
-/// a duplicate-free enumeration of a finite set hits exactly |names /\\ dom(cbs)| registered names
-pub proof fn lemma_hits_card(es: Seq<&String>, names: Set<String>, cbs: Map<String, ClearCb>)
-    requires names.finite(), es.len() == names.len(),
-        forall|i: int, j: int| 0 <= i < j < es.len() ==> *es[i] != *es[j],
-        forall|k: String| names.contains(k) <==> exists|j: int| 0 <= j < es.len() && *(#[trigger] es[j]) == k,
-    ensures hits(es, cbs, es.len() as int) == matching(names, cbs).len()
+/// the first i yielded names as a set
+pub open spec fn prefix_set(es: Seq<&String>, i: int) -> Set<String>
+    decreases i
 {
-    lemma_hits_prefix(es, cbs, es.len() as int);
-    let pre = prefix_set(es, es.len() as int);
-    assert(pre =~= names) by {
-        assert forall|k: String| pre.contains(k) <==> names.contains(k) by { }
-    }
+    if i <= 0 { Set::empty() } else { prefix_set(es, i - 1).insert(*es[i - 1]) }
 }
-pub open spec fn prefix_set(es: Seq<&String>, i: int) -> Set<String> {
-    Set::new(|k: String| exists|j: int| 0 <= j < i && j < es.len() && *(#[trigger] es[j]) == k)
+pub proof fn lemma_prefix_mem(es: Seq<&String>, i: int, k: String)
+    requires 0 <= i <= es.len()
+    ensures prefix_set(es, i).contains(k) <==> exists|j: int| 0 <= j < i && *(#[trigger] es[j]) == k
+    decreases i
+{
+    if i > 0 {
+        lemma_prefix_mem(es, i - 1, k);
+        if prefix_set(es, i).contains(k) {
+            if *es[i - 1] == k { assert(*es[i - 1] == k); } else {
+                let j = choose|j: int| 0 <= j < i - 1 && *(#[trigger] es[j]) == k;
+                assert(*es[j] == k);
+            }
+        }
+        if exists|j: int| 0 <= j < i && *(#[trigger] es[j]) == k {
+            let j = choose|j: int| 0 <= j < i && *(#[trigger] es[j]) == k;
+            if j < i - 1 { assert(*es[j] == k); }
+        }
+    }
 }
 pub proof fn lemma_hits_prefix(es: Seq<&String>, cbs: Map<String, ClearCb>, i: int)
     requires 0 <= i <= es.len(), forall|a: int, b: int| 0 <= a < b < es.len() ==> *es[a] != *es[b],
-    ensures prefix_set(es, i).finite(), hits(es, cbs, i) == matching(prefix_set(es, i), cbs).len(),
+    ensures hits(es, cbs, i) == matching(prefix_set(es, i), cbs).len(), hits(es, cbs, i) <= i,
     decreases i
 {
     if i == 0 {
-        assert(prefix_set(es, 0) =~= Set::<String>::empty());
         assert(matching(prefix_set(es, 0), cbs) =~= Set::<String>::empty());
     } else {
         lemma_hits_prefix(es, cbs, i - 1);
         let k = *es[i - 1];
         let p0 = prefix_set(es, i - 1);
-        let p1 = prefix_set(es, i);
-        assert(p1 =~= p0.insert(k)) by {
-            assert forall|x: String| p1.contains(x) <==> p0.insert(k).contains(x) by {
-                if p1.contains(x) {
-                    let j = choose|j: int| 0 <= j < i && j < es.len() && *(#[trigger] es[j]) == x;
-                    if j < i - 1 { assert(p0.contains(x)); }
-                }
-                if p0.contains(x) {
-                    let j = choose|j: int| 0 <= j < i - 1 && j < es.len() && *(#[trigger] es[j]) == x;
-                    assert(*es[j] == x);
-                }
-                if x == k { assert(*es[i - 1] == x); }
-            }
-        }
+        lemma_prefix_mem(es, i - 1, k);
         assert(!p0.contains(k)) by {
             if p0.contains(k) {
-                let j = choose|j: int| 0 <= j < i - 1 && j < es.len() && *(#[trigger] es[j]) == k;
+                let j = choose|j: int| 0 <= j < i - 1 && *(#[trigger] es[j]) == k;
                 assert(*es[j] != *es[i - 1]);
             }
         }
         if cbs.contains_key(k) {
-            assert(matching(p1, cbs) =~= matching(p0, cbs).insert(k));
+            assert(matching(p0.insert(k), cbs) =~= matching(p0, cbs).insert(k));
         } else {
-            assert(matching(p1, cbs) =~= matching(p0, cbs));
+            assert(matching(p0.insert(k), cbs) =~= matching(p0, cbs));
         }
     }
+}
+/// a duplicate-free enumeration of a set hits exactly |names /\\ dom(cbs)| registered names
+pub proof fn lemma_hits_card(es: Seq<&String>, names: Set<String>, cbs: Map<String, ClearCb>)
+    requires es.len() == names.len(),
+        forall|i: int, j: int| 0 <= i < j < es.len() ==> *es[i] != *es[j],
+        forall|k: String| names.contains(k) <==> exists|j: int| 0 <= j < es.len() && *(#[trigger] es[j]) == k,
+    ensures hits(es, cbs, es.len() as int) == matching(names, cbs).len(), prefix_set(es, es.len() as int) == names
+{
+    lemma_hits_prefix(es, cbs, es.len() as int);
+    let pre = prefix_set(es, es.len() as int);
+    assert forall|k: String| pre.contains(k) <==> names.contains(k) by { lemma_prefix_mem(es, es.len() as int, k); }
+    assert(pre =~= names);
 }
 ''')
 
 
+# R8: every function that (transitively) invokes a callback takes the effect log; calls among them pass it on (call graph, not by hand)
+FX_FNS = 'invalidate_by_tag|invalidate_by_event|invalidate_by_dependency|invalidate_cache|invalidate_caches'
+FX_CALL = R('R8.fx_call', r'self \. (%s) \( ([^()]*?) \)' % FX_FNS, r'self.\1(\2, fx)', 'effect log threaded through calls between callback-invoking functions (R8)')
+
+
 def fn(name, **kw):
     d = dict(kind='fn', file=I, impl=IMPL, name=name, label='InvalidationRegistry::' + name, engine='InvalidationRegistry')
+    d['body_rules'] = [FX_CALL]
     d['rules'] = kw.pop('rules', []) + CB_TYPES
     d.update(kw)
     return d
@@ -165,7 +182,7 @@ REG_LOOP = lambda field, coll: dict(iter='it', invariant=[
 BY_KEY = lambda table: [
     ('tables_unchanged', ['C12', 'C13'], OTHERS([])),
     ('invokes_exactly_the_registered_matching_caches', ['C12', 'C13'],
-     'final(fx).cleared@ == old(fx).cleared@.union(ids_of(under(old(self).%s@, s2s(KEY)), old(self).clear_callbacks@))' % table),
+     'forall|id: u64| #[trigger] final(fx).cleared@.contains(id) <==> (old(fx).cleared@.contains(id) || id_among(id, under(old(self).%s@, s2s(KEY)), old(self).clear_callbacks@))' % table),
     ('count_is_number_of_caches_cleared', ['C12'],
      'count == matching(under(old(self).%s@, s2s(KEY)), old(self).clear_callbacks@).len() && final(fx).n_cleared@ == old(fx).n_cleared@ + count' % table),
     ('no_check_callback_invoked', ['C13'], 'final(fx).checked == old(fx).checked && final(fx).n_checked == old(fx).n_checked'),
@@ -175,14 +192,14 @@ BY_KEY = lambda table: [
 def by_key(fname, table, keyparam):
     return fn(fname, ret='count', rules=[R('R4.set_or_empty', r'self \. %s \. read \( \) \. get \( %s \) \. cloned \( \) \. unwrap_or_default \( \)' % (table, keyparam),
                                              'set_or_empty(&self.%s, %s)' % (table, keyparam), 'get(key).cloned().unwrap_or_default() -> the registered set or the empty set (R1: read lock erased)'),
-                                           R('R8.fx_call', r'self \. invalidate_caches \( & cache_names \)', 'self.invalidate_caches(&cache_names, fx)', 'effect log threaded through (R8)')],
+                                           ],
               sig_rules=[R('R8.fx_param', r'\) -> usize', ', fx: &mut Fx) -> usize', 'effect-log parameter (R8)')],
               ensures=[(l, p, t.replace('KEY', keyparam)) for (l, p, t) in BY_KEY(table)])
 
 
 UNIT = dict(
     name='registry',
-    lemma_props={'lemma_hits_card': ['C12'], 'lemma_hits_prefix': ['C12'], '*': ['C12', 'C13']},
+    lemma_props={'lemma_hits_card': ['C12'], 'lemma_hits_prefix': ['C12'], 'lemma_prefix_mem': ['C12'], '*': ['C12', 'C13']},
     items=[SPEC,
         dict(kind='struct', file=I, name='InvalidationMetadata'),
         dict(kind='struct', file=I, name='InvalidationRegistry', rules=CB_TYPES + TYPE_RULES),
@@ -195,18 +212,18 @@ UNIT = dict(
                ('callbacks_untouched', ['C12', 'C13'], 'final(self).clear_callbacks@ == old(self).clear_callbacks@ && final(self).invalidation_check_callbacks@ == old(self).invalidation_check_callbacks@'),
            ],
            loops={0: REG_LOOP(('tag_map', 'tag_to_caches'), 'tags'), 1: REG_LOOP(('event_map', 'event_to_caches'), 'events'), 2: REG_LOOP(('dep_map', 'dependency_to_caches'), 'dependencies')},
-           hints=[(('loop_start', n), 'elem%d' % n, 'broadcast use b_take_contains_g; assert(*%s == metadata.%s@[it.index@ as int]);' % (v, c)) for n, (v, c) in enumerate([('tag', 'tags'), ('event', 'events'), ('dep', 'dependencies')])]
+           hints=[(('loop_start', n), 'elem%d' % n, 'assert(*%s == metadata.%s@[it.index@ as int]);' % (v, c)) for n, (v, c) in enumerate([('tag', 'tags'), ('event', 'events'), ('dep', 'dependencies')])]
                  + [(('fn_end',), 'take_full', 'assert(metadata.tags@.take(metadata.tags@.len() as int) =~= metadata.tags@); assert(metadata.events@.take(metadata.events@.len() as int) =~= metadata.events@); assert(metadata.dependencies@.take(metadata.dependencies@.len() as int) =~= metadata.dependencies@);')]),
         fn('register_callback', sig_rules=[R('R8.cb_param', r'< F > \( & self , cache_name : & str , callback : F \) where F : Fn \( \) \+ Send \+ Sync \+ \'static ,', '(&self, cache_name: &str, callback: ClearCb)', 'generic closure parameter -> identified callback')],
            rules=[R('R8.arc_new', r'Arc :: new \( callback \)', 'callback', 'Arc::new(closure) -> the identified callback')],
            ensures=[('registers_under_name', ['C12'], 'final(self).clear_callbacks@ == old(self).clear_callbacks@.insert(s2s(cache_name), callback)'),
                     ('others_untouched', ['C12', 'C13'], OTHERS(['clear_callbacks']))]),
-        fn('invalidate_caches', ret='count', rules=[R('R4.set_elems', r'for name in cache_names \{', 'for name in set_elems(cache_names) {', 'for x in &HashSet -> the elements the iterator yields (each once)'),
+        fn('invalidate_caches', ret='count', rules=[R('R4.set_elems', r'for name in cache_names \{', 'let __elems = set_elems(cache_names); for name in __elems {', 'for x in &HashSet -> the elements the iterator yields (each once), bound to a local'),
                                                       R('R8.invoke', r'callback \( \) ;', 'callback.invoke(fx);', 'dyn callback call -> identified invoke with effect log')],
            sig_rules=[R('R8.fx_param', r'\) -> usize', ', fx: &mut Fx) -> usize', 'effect-log parameter (R8)')],
            ensures=[
                ('tables_unchanged', ['C12', 'C13'], OTHERS([])),
-               ('invokes_exactly_the_registered_matching_caches', ['C12', 'C13'], 'final(fx).cleared@ == old(fx).cleared@.union(ids_of(cache_names@, old(self).clear_callbacks@))'),
+               ('invokes_exactly_the_registered_matching_caches', ['C12', 'C13'], 'forall|id: u64| #[trigger] final(fx).cleared@.contains(id) <==> (old(fx).cleared@.contains(id) || id_among(id, cache_names@, old(self).clear_callbacks@))'),
                ('count_is_number_of_caches_cleared', ['C12'], 'count == matching(cache_names@, old(self).clear_callbacks@).len() && final(fx).n_cleared@ == old(fx).n_cleared@ + count'),
                ('no_check_callback_invoked', ['C13'], 'final(fx).checked == old(fx).checked && final(fx).n_checked == old(fx).n_checked'),
            ],
@@ -214,9 +231,60 @@ UNIT = dict(
                ('frame', OTHERS([]).replace('final(self)', 'self') + ' && callbacks@ == old(self).clear_callbacks@ && fx.checked == old(fx).checked && fx.n_checked == old(fx).n_checked'),
                ('snap', 'it.snapshot@.remaining() == es && es.len() == cache_names@.len() && (forall|i: int, j: int| 0 <= i < j < es.len() ==> *es[i] != *es[j]) '
                         '&& (forall|k: String| cache_names@.contains(k) <==> exists|j: int| 0 <= j < es.len() && *(#[trigger] es[j]) == k)'),
-               ('count', 'count == hits(es, callbacks@, it.index@ as int) && count <= it.index@ && fx.n_cleared@ == old(fx).n_cleared@ + count'),
-               ('cleared', 'fx.cleared@ == old(fx).cleared@.union(ids_of(prefix_set(es, it.index@ as int), callbacks@))'),
+               ('count', 'count == hits(es, callbacks@, it.index@ as int) && count <= it.index@ && es.len() <= usize::MAX && fx.n_cleared@ == old(fx).n_cleared@ + count'),
+               ('cleared', 'forall|id: u64| #[trigger] fx.cleared@.contains(id) <==> (old(fx).cleared@.contains(id) || id_among(id, prefix_set(es, it.index@ as int), callbacks@))'),
            ])},
-           hints=[(('before_loop', 0), 'enumeration', 'let ghost es: Seq<&String>;'), ]),
+           hints=[(('before_loop', 0), 'enumeration', 'let ghost es = __elems@;'),
+                  (('loop_start', 0), 'elem', 'assert(name == es[it.index@ as int]); proof { lemma_hits_prefix(es, callbacks@, it.index@ as int); lemma_prefix_mem(es, it.index@ as int, *name); }'),
+                  (('after_loop', 0), 'cardinality', 'proof { lemma_hits_card(es, cache_names@, callbacks@); }')]),
+        by_key('invalidate_by_tag', 'tag_to_caches', 'tag'),
+        by_key('invalidate_by_event', 'event_to_caches', 'event'),
+        by_key('invalidate_by_dependency', 'dependency_to_caches', 'dependency'),
+        fn('invalidate_cache', ret='r', rules=[R('R8.invoke', r'callback \( \) ;', 'callback.invoke(fx);', 'dyn callback call -> identified invoke with effect log')],
+           sig_rules=[R('R8.fx_param', r'\) -> bool', ', fx: &mut Fx) -> bool', 'effect-log parameter (R8)')],
+           ensures=[
+               ('tables_unchanged', ['C12', 'C13'], OTHERS([])),
+               ('true_iff_registered', ['C12'], 'r == old(self).clear_callbacks@.contains_key(s2s(cache_name))'),
+               ('invokes_exactly_that_cache', ['C12', 'C13'], 'r ==> final(fx).cleared@ == old(fx).cleared@.insert(old(self).clear_callbacks@[s2s(cache_name)].id) && final(fx).n_cleared@ == old(fx).n_cleared@ + 1'),
+               ('unknown_name_touches_nothing', ['C12', 'C13'], '!r ==> final(fx).cleared == old(fx).cleared && final(fx).n_cleared == old(fx).n_cleared'),
+               ('no_check_callback_invoked', ['C13'], 'final(fx).checked == old(fx).checked && final(fx).n_checked == old(fx).n_checked'),
+           ]),
+        fn('register_invalidation_callback', sig_rules=[R('R8.cb_param', r"< F > \( & self , cache_name : & str , callback : F \) where F : Fn \( & dyn Fn \( & str \) -> bool \) \+ Send \+ Sync \+ 'static ,", '(&self, cache_name: &str, callback: CheckCb)', 'generic closure parameter -> identified callback')],
+           rules=[R('R8.arc_new', r'Arc :: new \( callback \)', 'callback', 'Arc::new(closure) -> the identified callback')],
+           ensures=[('registers_under_name', ['C13'], 'final(self).invalidation_check_callbacks@ == old(self).invalidation_check_callbacks@.insert(s2s(cache_name), callback)'),
+                    ('others_untouched', ['C12', 'C13'], OTHERS(['invalidation_check_callbacks']))]),
+        fn('invalidate_with', ret='r',
+           sig_rules=[R('R8.pred_param', r'< F > \( & self , cache_name : & str , predicate : F \) -> bool where F : Fn \( & str \) -> bool ,', '(&self, cache_name: &str, predicate: PredId, fx: &mut Fx) -> bool', 'generic predicate parameter -> predicate identity; effect log')],
+           rules=[R('R8.invoke_with', r'callback \( & predicate \) ;', 'callback.invoke_with(fx, predicate.id, None);', 'dyn callback call -> identified invoke with effect log')],
+           ensures=[
+               ('tables_unchanged', ['C13'], OTHERS([])),
+               ('true_iff_registered', ['C13'], 'r == old(self).invalidation_check_callbacks@.contains_key(s2s(cache_name))'),
+               ('applies_predicate_to_exactly_that_cache', ['C13'], 'r ==> final(fx).checked@ == old(fx).checked@.insert((old(self).invalidation_check_callbacks@[s2s(cache_name)].id, predicate.id, None)) && final(fx).n_checked@ == old(fx).n_checked@ + 1'),
+               ('unknown_name_touches_nothing', ['C13'], '!r ==> final(fx).checked == old(fx).checked && final(fx).n_checked == old(fx).n_checked'),
+               ('no_clear_callback_invoked', ['C13'], 'final(fx).cleared == old(fx).cleared && final(fx).n_cleared == old(fx).n_cleared'),
+           ]),
+        fn('invalidate_all_with', ret='count',
+           sig_rules=[R('R8.pred2_param', r'< F > \( & self , predicate : F \) -> usize where F : Fn \( & str , & str \) -> bool ,', '(&self, predicate: PredId, fx: &mut Fx) -> usize', 'generic predicate parameter -> predicate identity; effect log')],
+           rules=[R('R4.map_pairs', r'for \( cache_name , callback \) in callbacks \. iter \( \) \{', 'let __pairs = map_pairs(&*callbacks); for (cache_name, callback) in __pairs {', 'HashMap::iter() -> the (key, value) pairs the iterator yields (each entry once), bound to a local'),
+                  R('R8.invoke_closure', r'callback \( & \| key : & str \| predicate \( & cache_name_clone , key \) \) ;', 'callback.invoke_with(fx, predicate.id, Some(cache_name_clone));',
+                    'the closure built around the user predicate -> "the predicate specialised to that cache name" (R8)')],
+           ensures=[
+               ('tables_unchanged', ['C13'], OTHERS([])),
+               ('count_is_number_of_registered_caches', ['C13'], 'count == old(self).invalidation_check_callbacks@.len() && final(fx).n_checked@ == old(fx).n_checked@ + count'),
+               ('each_cache_gets_its_own_specialisation', ['C13'], 'forall|t: (u64, u64, Option<String>)| #[trigger] final(fx).checked@.contains(t) <==> (old(fx).checked@.contains(t) || '
+                'exists|n: String| old(self).invalidation_check_callbacks@.contains_key(n) && t == (old(self).invalidation_check_callbacks@[n].id, predicate.id, Some(n)))'),
+               ('no_clear_callback_invoked', ['C13'], 'final(fx).cleared == old(fx).cleared && final(fx).n_cleared == old(fx).n_cleared'),
+           ],
+           loops={0: dict(iter='it', invariant=[
+               ('frame', OTHERS([]).replace('final(self)', 'self') + ' && callbacks@ == old(self).invalidation_check_callbacks@ && fx.cleared == old(fx).cleared && fx.n_cleared == old(fx).n_cleared'),
+               ('snap', 'it.snapshot@.remaining() == ps && ps.len() == callbacks@.len() && ps.len() <= usize::MAX && (forall|i: int, j: int| 0 <= i < j < ps.len() ==> *ps[i].0 != *ps[j].0) '
+                        '&& (forall|j: int| 0 <= j < ps.len() ==> callbacks@.contains_key(*(#[trigger] ps[j]).0) && callbacks@[*ps[j].0] == *ps[j].1) '
+                        '&& (forall|k: String| callbacks@.contains_key(k) ==> exists|j: int| 0 <= j < ps.len() && *(#[trigger] ps[j]).0 == k)'),
+               ('count', 'count == it.index@ && fx.n_checked@ == old(fx).n_checked@ + count'),
+               ('checked', 'forall|t: (u64, u64, Option<String>)| #[trigger] fx.checked@.contains(t) <==> (old(fx).checked@.contains(t) || '
+                           'exists|j: int| 0 <= j < it.index@ && t == ((#[trigger] ps[j]).1.id, predicate.id, Some(*ps[j].0)))'),
+           ])},
+           hints=[(('before_loop', 0), 'enumeration', 'let ghost ps = __pairs@;'),
+                  (('loop_start', 0), 'elem', 'assert((cache_name, callback) == ps[it.index@ as int]);')]),
     ],
 )
